@@ -180,10 +180,10 @@ def run(c, chk):
         if ev.name == 'malloc':
             nexp += 1
             # the two pieces copied in: the home directory first, then the rest of the input
-            copies = [e for e in p.events if e.kind == 'call' and e.name in ('strcpy', 'strcat', 'memcpy', 'llvm.memcpy.p0i8.p0i8.i64')
-                      and bufsize.split_ptr(e.args[0])[0] == v]
-            srcs = [sym.render(e.args[1]) for e in copies]
-            if len(copies) < 2 or not srcs[0].endswith('->pw_dir') or 'pw_dir' in srcs[1]:
+            pieces = bufsize.buffer_pieces(p, v)
+            srcs = [sym.render(x[1]) if x[0] == 'src' else repr(x[1]) for x in (pieces or [])]
+            if pieces is None or len(pieces) != 2 or pieces[0][0] != 'src' or pieces[1][0] != 'src' \
+                    or not srcs[0].endswith('->pw_dir') or 'pw_dir' in srcs[1] or not sym.mentions(pieces[1][1], lambda z: z == ('p', 'filename') or (z[0] == 'call' and z[1] == 'strchr')):
                 okexp = False
                 chk.fail('R17.5', 'tilde-build', c.where(ev.ins), 'the expanded name is not the home directory followed by the rest of the input (copied: %s)' % srcs)
     if okexp and nexp and unknown_ok:
